@@ -35,7 +35,8 @@ def poke(w, hist, fork, counters):
             out.append(V("C04", "poke", w,
                          "at the end of instant %s, %d %s request(s) were waiting; one more request behind them made token(s) %s granted: the store could serve and had not"
                          % (w.now, len(waiting), "space" if side == "p" else "retrieval", flipped),
-                         side=side, poke_itself=(flipped == [len(w2.toks) - 1])))
+                         side=side, poke_itself=(flipped == [len(w2.toks) - 1]), subject=w.spec.kind,
+                         granted_unused_same_side=bool(w.granted(side))))
     return out
 
 
